@@ -3,6 +3,7 @@ package main
 import (
 	"fmt"
 	"go/token"
+	"go/types"
 	"math/big"
 	"strings"
 
@@ -140,6 +141,7 @@ func ruleC09(w *World, r *Report) {
 	r.Explanation = "R09.1/R09.2 the BESS QER worker is enumerated path by path: per direction the gate passed is drop ⇔ status ≠ open, else meter ⇔ MBR ≠ 0 ∨ GBR ≠ 0, else unmetered; on the metering paths cir = max(GBR×125, 1) and pir = max(MBR×125, cir) by constant-factor extraction with exact division (helpers inlined); the uplink half uses ul* fields and the access interface, the downlink half dl* and core; " +
 		"R09.3 each burst is max(calcBurstSizeFromRate(rate, configured duration), configured value of the same name) with the per-QFI configuration looked up by the QER's QFI and falling back to entry 0 only when absent; calcBurstSizeFromRate = kbps·ms/8 (product form); " +
 		"R09.4 UP4: pir = MBR×125 iff MBR ≠ 0, burst from the MBR, uplink/downlink cells get ul/dl rates, QFI→TC through the presence-checked map (shared with C04), qosLevel routes to the application / session meter; R09.5 loops over the session's rule lists in MarkSessionQer cover every element."
+	r.Explanation += " R09.6 every element put into the two meter-cell pools is ≥ 1 (cell 0 = no meter); R09.7 MarkSessionQer narrows a private copy, never the qerIDList of a stored PDR."
 	r.NotDecided = "which QER MarkSessionQer labels (an algorithm over list shapes); that re-labelling never happens across modification histories"
 	keep := map[string]bool{"maxUint64": true, "calcBurstSizeFromRate": true}
 	add := workerOf(w.Fn(P, "pfcpiface.(*bess).addQER"))
@@ -444,6 +446,8 @@ func ruleC09(w *World, r *Report) {
 	ruleC09UP4(w, r)
 	up4CallersHandAll(w, r, "R09.4")
 	ruleC09Mark(w, r)
+	ruleC09MeterCells(w, r)
+	ruleC09SearchList(w, r)
 }
 
 // symAtPathDeep resolves phis along the path recursively through arithmetic and calls.
@@ -769,4 +773,131 @@ func isRangeIndexOf(v ssa.Value) bool {
 		}
 	}
 	return inits == 1 && backs >= 1
+}
+
+// ruleC09MeterCells (R09.6): meter cell 0 means "no meter" throughout UP4 (PDRs without a QER point at it,
+// configureApplicationMeter does not program a meter whose cell is 0). A cell pool that can hand out 0
+// gives an accepted QER a cell that is never programmed — the signalled rate is not enforced — and a
+// session QER on cell 0 limits every session that has none. Every value put into the two meter pools by
+// initMetersPools is at least 1.
+func ruleC09MeterCells(w *World, r *Report) {
+	const P = "C09"
+	f := w.Fn(P, "pfcpiface.(*UP4).initMetersPools")
+	fn := w.FuncName(f)
+	n := 0
+	allInstrs(f, func(i ssa.Instruction) {
+		c, ok := i.(*ssa.Call)
+		if !ok || !c.Call.IsInvoke() || c.Call.Method.Name() != "Add" || len(c.Call.Args) != 1 {
+			return
+		}
+		if !strings.Contains(c.Call.Value.Type().String(), "set.Set") && !strings.Contains(c.Call.Value.Type().String(), "mapset") {
+			return
+		}
+		n++
+		// the element: interface(convert(φ)) with φ = (c0, φ+step)
+		v := c.Call.Args[0]
+		for k := 0; k < 4; k++ {
+			switch x := v.(type) {
+			case *ssa.MakeInterface:
+				v = x.X
+			case *ssa.Convert:
+				v = x.X
+			case *ssa.ChangeType:
+				v = x.X
+			}
+		}
+		lo, known := int64(0), false
+		switch x := v.(type) {
+		case *ssa.Phi:
+			known = true
+			first := true
+			for _, e := range x.Edges {
+				if bo, isB := e.(*ssa.BinOp); isB && bo.Op == token.ADD && bo.X == ssa.Value(x) {
+					if k, isK := constInt(bo.Y); isK && k > 0 {
+						continue
+					}
+				}
+				k, isK := constInt(e)
+				if !isK {
+					known = false
+					continue
+				}
+				if first || k < lo {
+					lo, first = k, false
+				}
+			}
+		case *ssa.Const:
+			if k, isK := constInt(x); isK {
+				lo, known = k, true
+			}
+		}
+		r.check(known && lo >= 1, "R09.6", fn, fmt.Sprintf("meter cell pool element #%d is never cell 0", n), w.Pos(c.Pos()), fmt.Sprintf("counts up from %d", lo), ifelse(known, fmt.Sprintf("the pool is filled starting at %d: cell 0 is the 'no meter' index, a QER that draws it is accepted but never programmed (and a session QER on it limits every session without one)", lo), "the smallest value added to the pool could not be determined"))
+	})
+	r.floor("R09.6 elements added to the meter cell pools", n, 2)
+}
+
+// ruleC09SearchList (R09.7): MarkSessionQer narrows its candidate list in place (copy / element
+// stores). That list must be the function's own: if it is the qerIDList of a PDR, narrowing it rewrites
+// that PDR's QER references — the PDR loses its application QER and is programmed with the session QER
+// in its place, so the rate and gate signalled for the flow are not enforced.
+func ruleC09SearchList(w *World, r *Report) {
+	const P = "C09"
+	mark := w.Fn(P, "pfcpiface.(*PFCPSession).MarkSessionQer")
+	mn := w.FuncName(mark)
+	n := 0
+	// φ-aware: a slice value is "of a PDR" if any of its sources is the field
+	var ofField func(v ssa.Value, d int, seen map[ssa.Value]bool) bool
+	ofField = func(v ssa.Value, d int, seen map[ssa.Value]bool) bool {
+		if d > 8 || seen[v] {
+			return false
+		}
+		seen[v] = true
+		switch x := v.(type) {
+		case *ssa.Slice:
+			return ofField(x.X, d+1, seen)
+		case *ssa.UnOp:
+			return loadsField(x, "qerIDList")
+		case *ssa.Phi:
+			for _, e := range x.Edges {
+				if ofField(e, d+1, seen) {
+					return true
+				}
+			}
+		case *ssa.Call:
+			if b, ok := x.Call.Value.(*ssa.Builtin); ok && b.Name() == "append" && len(x.Call.Args) > 0 {
+				base := x.Call.Args[0]
+				if isNilConst(base) {
+					return false
+				}
+				if ms, isMs := base.(*ssa.MakeSlice); isMs {
+					_ = ms
+					return false
+				}
+				return ofField(base, d+1, seen)
+			}
+		}
+		return false
+	}
+	allInstrs(mark, func(i ssa.Instruction) {
+		switch x := i.(type) {
+		case *ssa.Call:
+			if calleeName(x) != "builtin.copy" {
+				return
+			}
+			n++
+			dst := x.Call.Args[0]
+			r.check(!ofField(dst, 0, map[ssa.Value]bool{}), "R09.7", mn, fmt.Sprintf("in-place narrowing #%d works on the function's own list", n), w.Pos(x.Pos()), "destination is a private copy", "copy() writes into "+symOf(dst).String()+", the QER list of a stored PDR: the search for the session QER overwrites that PDR's own QER references")
+		case *ssa.Store:
+			ia, ok := x.Addr.(*ssa.IndexAddr)
+			if !ok {
+				return
+			}
+			if et, isU := ia.Type().Underlying().(*types.Pointer); !isU || et.Elem().String() != "uint32" {
+				return
+			}
+			n++
+			r.check(!ofField(ia.X, 0, map[ssa.Value]bool{}), "R09.7", mn, fmt.Sprintf("in-place narrowing #%d works on the function's own list", n), w.Pos(x.Pos()), "destination is a private copy", "an element of "+symOf(ia.X).String()+", the QER list of a stored PDR, is overwritten during the search")
+		}
+	})
+	r.floor("R09.7 in-place writes of the search list", n, 1)
 }
